@@ -11,7 +11,11 @@ for m in sorted(glob.glob(os.path.join(V,'seeded','*','meta.json'))):
     c=d['our_check']
     cl='; '.join(sorted(set(re.sub(r':? .*','',v.split(': ')[0]) for v in c['violation_clauses'])))[:160] if c['caught'] else '—'
     note=SUM.get(sid,d.get('summary',''))
-    rows.append('| %s | %s | %s | %s | %s |'%(d['property'],', '.join(files),note,'**caught**' if c['caught'] else 'MISSED',cl))
+    verdict='**caught**' if c['caught'] else 'MISSED'
+    if not c['caught'] and d.get('other_check',{}).get('caught'):
+        verdict='not by this check; **caught** by '+d['other_check']['command'].split()[-1]
+        cl=d['other_check']['violation_clauses'][0][:160]
+    rows.append('| %s | %s | %s | %s | %s |'%(d['property'],', '.join(files),note,verdict,cl))
 tab='| property | changed file(s) | what the change does / needs | our quick check | catching scenario:clause |\n|---|---|---|---|---|\n'+'\n'.join(rows)
 p=os.path.join(V,'DESIGN.md'); s=open(p).read()
 s=re.sub(r'<!-- SEEDED-TABLE-BEGIN -->.*<!-- SEEDED-TABLE-END -->','<!-- SEEDED-TABLE-BEGIN -->\n'+tab.replace('\\','\\\\')+'\n<!-- SEEDED-TABLE-END -->',s,flags=re.S)
